@@ -34,9 +34,13 @@ def code_of_blocks(block_tokens, tags=True):
     return code
 
 
-def document(init_blocks, run_blocks, with_noasm=True, with_source_list=True, extra_contract=None, homonym=None):
+def document(init_blocks, run_blocks, with_noasm=True, with_source_list=True, extra_contract=None, homonym=None, second_runtime=None):
     asm = {".code": code_of_blocks(init_blocks),
            ".data": {"0": {".auxdata": "a264697066735822", ".code": code_of_blocks(run_blocks)}}}
+    if second_runtime is not None:
+        # a second sub-assembly with code (factory contracts), itself with a nested data section
+        asm[".data"]["1"] = {".auxdata": "a2646970667358ff", ".code": code_of_blocks(second_runtime),
+                             ".data": {"0": {".auxdata": "a1", ".code": code_of_blocks([["PUSH 1", "PUSH 0", "SSTORE"]])}}}
     if with_source_list:
         asm["sourceList"] = ["f.sol", "#utility.yul"]
     contracts = {"f.sol:C": {"asm": asm}}
